@@ -359,6 +359,10 @@ def diff_snapshot(before, after, note, tag):
         note.fail("args-mutated:kwargs", dict(call=tag))
 
 
+# verbosity of the over_time calls of the case being evaluated (0, 1, 2)
+VERBOSE = [0]
+
+
 def call_over_time(table, fd, vars_, ests, kw, note, tag):
     """Run the real over_time quietly; returns the table or None (failure
     recorded).  vars_/ests None => argument omitted."""
@@ -371,7 +375,9 @@ def call_over_time(table, fd, vars_, ests, kw, note, tag):
     buf = io.StringIO()
     try:
         with contextlib.redirect_stdout(buf), contextlib.redirect_stderr(buf):
-            out = aurel.over_time(table, fd, verbose=False, **kwargs)
+            # verbose=True is the default of the API; output is swallowed
+            out = aurel.over_time(table, fd, verbose=bool(VERBOSE[0]),
+                                  veryverbose=VERBOSE[0] > 1, **kwargs)
     except RecursionError as e:
         note.fail("raises:RecursionError",
                   dict(call=tag, error=str(e)[:200], vars=_names(vars_)))
@@ -770,6 +776,9 @@ def call_args(case, k):
 
 
 def test_case(case, note):
+    VERBOSE[0] = int(case.get("verbose", 0))
+    if VERBOSE[0]:
+        note.cls("verbose=%d" % VERBOSE[0])
     fd, rows, cols, tk = build_table(case)
     n = len(rows)
     kw = dict(case["kw"])
@@ -966,7 +975,8 @@ def case_strategy(draw, wide=False):
         stride=draw(st.sampled_from([1, 2, 8, 512])),
         tpos=draw(st.sampled_from(["first", "last"])),
         container=draw(st.sampled_from(["list", "list", "array"])),
-        vars=vars_, ests=ests, kw=kw, calls=calls)
+        vars=vars_, ests=ests, kw=kw, calls=calls,
+        verbose=draw(st.sampled_from([0, 0, 0, 0, 1, 2])))
 
 
 _WSPEC = dict(family="W", params=dict(modes=[
